@@ -1,0 +1,40 @@
+// Verification hooks. Compiled only with `--cfg parity_db_verif`.
+//
+// `yield_point(site)` is called at hand-over sites of the write pipeline. It does nothing
+// unless a harness installed a hook (e.g. a seeded delay) with `set_yield_hook`.
+
+use std::sync::atomic::{AtomicUsize, Ordering};
+
+pub const SITE_COMMIT_ENTER: u32 = 1;
+pub const SITE_BEFORE_END_RECORD: u32 = 2;
+pub const SITE_AFTER_END_RECORD: u32 = 3;
+pub const SITE_AFTER_OVERLAY_CLEAN: u32 = 4;
+pub const SITE_BEFORE_END_READ: u32 = 5;
+pub const SITE_AFTER_END_READ: u32 = 6;
+pub const SITE_ENACT_ACTION: u32 = 7;
+pub const SITE_FLUSH_SYNCED: u32 = 8;
+pub const SITE_BEFORE_DEFER: u32 = 9;
+pub const SITE_AFTER_DEFER: u32 = 10;
+pub const SITE_DROP_INDEX: u32 = 11;
+pub const SITE_BEFORE_CLEAN: u32 = 12;
+pub const SITE_BEFORE_WAIT: u32 = 13;
+pub const SITE_AFTER_SIGNAL: u32 = 14;
+pub const SITE_REINDEX_RECORD: u32 = 15;
+pub const SITE_COMMIT_QUEUED: u32 = 16;
+pub const NUM_SITES: u32 = 17;
+
+static HOOK: AtomicUsize = AtomicUsize::new(0);
+
+/// Install (or remove with `None`) the global yield hook.
+pub fn set_yield_hook(hook: Option<fn(u32)>) {
+	HOOK.store(hook.map_or(0, |f| f as usize), Ordering::SeqCst);
+}
+
+#[inline]
+pub fn yield_point(site: u32) {
+	let h = HOOK.load(Ordering::Relaxed);
+	if h != 0 {
+		let f: fn(u32) = unsafe { std::mem::transmute::<usize, fn(u32)>(h) };
+		f(site);
+	}
+}
